@@ -115,6 +115,20 @@ pub fn entry_points() -> Vec<EntryPoint> {
             css::crypto_secretstream_xchacha20poly1305_init_push(st, h, &[7u8; 32]);
             Ok(h.to_vec())
         }));
+        let b = Mutex::new(vec![0x77u8; 3 + 48 + 13]);
+        v.push(ep("crypto_box_seal ephemeral key (oversized ciphertext buffer, reused)", move || {
+            let rpk = sodium::scalarmult_base(&[5u8; 32]);
+            let mut g = b.lock().unwrap();
+            match dryoc::classic::crypto_box::crypto_box_seal(&mut g, b"abc", &rpk) {
+                Ok(()) => Ok(g[..32].to_vec()),
+                // an implementation may insist on an exact-size buffer: then this entry degenerates to the exact-size one
+                Err(_) => {
+                    let mut c = vec![0u8; 3 + 48];
+                    dryoc::classic::crypto_box::crypto_box_seal(&mut c, b"abc", &rpk).map_err(|e| format!("{e:?}"))?;
+                    Ok(c[..32].to_vec())
+                }
+            }
+        }));
         let b = Mutex::new(vec![0x77u8; 3 + 48]);
         v.push(ep("crypto_box_seal ephemeral key (ciphertext buffer reused)", move || {
             let rpk = sodium::scalarmult_base(&[5u8; 32]);
@@ -335,7 +349,7 @@ pub fn screen(name: &str, values: &[Vec<u8>]) -> Result<usize, String> {
 
 pub fn run(ctx: &mut Ctx) -> Result<(), Violation> {
     let nightly_part = cfg!(feature = "nightly") && std::env::var("VERIF_PART").as_deref() == Ok("nightly");
-    ctx.rule = "History = N calls to each randomised entry point (gen for stack/array/Vec containers of 8/16/24/32/64 bytes, randombytes_buf, copy_randombytes, every *_keygen and *_keypair in classic and object modules, Kdf::gen, the stream header from classic and object init_push, the sealed-box ephemeral key from crypto_box_seal and DryocBox::seal, the salt of PwHash::hash (16- and 24-byte) and of crypto_pwhash_str decoded from the string; heap/locked generators in the nightly sub-run), interleaved across entry points by a seeded schedule; the in-place generators are additionally driven on one never-reset caller buffer. Oracle per entry point: no all-zero value (outputs >= 16 bytes); at most c colliding pairs with c derived so that the false-alarm probability is < 2^-100 (0 for >= 16 bytes); no byte position constant across the N values; every byte position takes >= 16 distinct values (N >= 64); key pairs satisfy pk = base(sk) / derive from their seed. Non-trivial: an entry point for which all N calls completed with N distinct values; distinct = number of distinct values observed (measured, summed); evaluations = total calls. The subject is OS randomness, so values differ between runs; VERIF_SEED only fixes the interleaving.".into();
+    ctx.rule = "History = N calls (quick 1 024; thorough 524 288 for outputs up to 64 bytes, which makes a generator confined to a 2^32-value space collide with certainty) to each randomised entry point (gen for stack/array/Vec containers of 8/16/24/32/64 bytes, randombytes_buf, copy_randombytes, every *_keygen and *_keypair in classic and object modules, Kdf::gen, the stream header from classic and object init_push, the sealed-box ephemeral key from crypto_box_seal and DryocBox::seal, the salt of PwHash::hash (16- and 24-byte) and of crypto_pwhash_str decoded from the string; heap/locked generators in the nightly sub-run), interleaved across entry points by a seeded schedule; the in-place generators are additionally driven on one never-reset caller buffer. Oracle per entry point: no all-zero value (outputs >= 16 bytes); at most c colliding pairs with c derived so that the false-alarm probability is < 2^-100 (0 for >= 16 bytes); no byte position constant across the N values; every byte position takes >= 16 distinct values (N >= 64); key pairs satisfy pk = base(sk) / derive from their seed. Non-trivial: an entry point for which all N calls completed with N distinct values; distinct = number of distinct values observed (measured, summed); evaluations = total calls. The subject is OS randomness, so values differ between runs; VERIF_SEED only fixes the interleaving.".into();
     ctx.assumptions = vec![
         "statistical screening detects constant, zero, repeated, partially filled or low-entropy outputs; it cannot establish independence or unpredictability".into(),
         "false-alarm probability per run < 2^-100 by construction of the thresholds".into(),
@@ -345,12 +359,15 @@ pub fn run(ctx: &mut Ctx) -> Result<(), Violation> {
     #[cfg(not(feature = "nightly"))]
     let eps = entry_points();
     let _ = nightly_part;
-    let n_fast = ctx.tier.pick(1024usize, 131072);
+    let n_fast = ctx.tier.pick(1024usize, 524288);
     let n_slow = ctx.tier.pick(192usize, 12288);
     // seeded interleaving: a shuffled schedule of (entry index) tokens, executed by 16 workers
     let mut schedule: Vec<usize> = vec![];
     for (i, e) in eps.iter().enumerate() {
-        for _ in 0..if e.slow { n_slow } else { n_fast } {
+        // large outputs get proportionally fewer calls (memory): at most 2^25 bytes of values per entry point
+        let outlen = no_panic(|| (e.call)()).ok().and_then(|r| r.ok()).map_or(64, |v| v.len().max(1));
+        let cap = ((1usize << 25) / outlen).max(1024);
+        for _ in 0..if e.slow { n_slow } else { n_fast.min(cap) } {
             schedule.push(i);
         }
     }
